@@ -158,7 +158,9 @@ def run(ctx):
 
     # 1. model checking + behaviour emission
     if quick:
-        covers = [{"MaxReq": "2", "KCover": "1", "Statuses": "{200}", "JailChoices": '{"no"}', "DefinedChoices": "SomeAbsent"}]
+        covers = [{"MaxReq": "2", "KCover": "1", "Statuses": "{200}", "JailChoices": '{"no"}', "DefinedChoices": "SomeAbsent"},
+                  {"MaxReq": "2", "KCover": "0", "Statuses": "{404, 201, 1200, 2200, 3200, 4200, 5301}", "JailChoices": '{"no"}',
+                   "Restricted": "TRUE"}]
     else:
         covers = [{"MaxReq": "3", "KCover": "2", "Statuses": "{200, 500}", "JailChoices": '{"no"}'},
                   {"MaxReq": "3", "KCover": "1", "Statuses": "{200}", "JailChoices": '{"no", "long"}'},
@@ -183,7 +185,8 @@ def run(ctx):
         beh_files.append(tp)
     # seeded simulation for depth beyond the cover
     sim = ctx.tlc("Lifecycle", cfg="LifecycleSim.cfg", simulate=(400 if quick else 6000), depth=60,
-                  defines={"MaxReq": "3", "KCover": "0", "Statuses": "{200, 500}", "JailChoices": '{"no", "long"}',
+                  defines={"MaxReq": "3", "KCover": "0", "Statuses": "{200, 500, 404, 201, 1200, 2200, 3200, 4200, 5301, 1404}",
+                           "JailChoices": '{"no", "long"}',
                            "DefinedChoices": "SomeAbsent"},
                   timeout=900, tag="simulate")
     beh_files.append(sim.beh_path)
